@@ -410,7 +410,7 @@ var stressQuick = []stressCase{
 }
 
 var stressThorough = append(append([]stressCase{}, stressQuick...), []stressCase{
-	{"nest-array", 4000}, {"nest-object", 4000}, {"nest-object", 5200}, {"nest-array", 30000}, {"nest-mixed", 3000}, {"nest-paren", 200000},
+	{"nest-array", 4000}, {"nest-object", 4000}, {"nest-object", 5200}, {"nest-array", 12000}, {"nest-mixed", 3000}, {"nest-paren", 200000},
 	{"long-line", 4000000}, {"many-directives", 40000}, {"allof-chain", 220}, {"ref-chain", 300}, {"many-macros", 2000},
 	{"long-param", 4000000}, {"long-comment", 4000000}, {"deep-description", 400000}, {"many-enums", 2500}, {"long-annotation", 2000000},
 	{"many-types", 1500}, {"wide-object", 40000}, {"many-includes-lines", 50000},
